@@ -6,7 +6,7 @@
 //verif:timeout 60s
 //verif:lazyfp
 //verif:assume BaseDelay and MaxDelay are non-negative durations; Multiplier and Jitter are ARBITRARY float64 values (including NaN, infinities, jitter > 1, multiplier < 1)
-//verif:outside retry counts above 2; the two-sided range clause [(1-jitter),(1+jitter)] x min(base x mult^n, max): its query (64-bit int->float->int conversions around a product chain) is not discharged by any installed solver within minutes even after abstracting the multiplications, so it is NOT decided; the pacing of addrConn.resetTransportAndUnlock (timer + backoffIdx)
+//verif:outside retry counts above 2 in the sign entry (6 in the range entry); the two-sided range clause is decided for 4 concrete configurations and every jitter draw, not for arbitrary configurations (64-bit int->float->int conversions around a product chain of symbolic factors are not discharged by any back end)
 package backoff
 
 import (
@@ -38,4 +38,34 @@ func verifH_C20_sign() {
 	} else if n == 1 {
 		verifCover("retry")
 	}
+}
+
+// the two-sided range clause, for concrete configurations (so that base x multiplier^n is a constant) and EVERY jitter
+// draw in [0,1): the delay lies within [(1-jitter), (1+jitter)] x min(base x multiplier^n, max)
+var verifC20Cfgs = [...]grpcbackoff.Config{
+	{BaseDelay: time.Second, Multiplier: 1.6, Jitter: 0.2, MaxDelay: 120 * time.Second}, // grpc's default connection backoff
+	{BaseDelay: 100 * time.Millisecond, Multiplier: 2, Jitter: 0.5, MaxDelay: time.Second},
+	{BaseDelay: time.Millisecond, Multiplier: 10, Jitter: 0, MaxDelay: time.Hour},
+	{BaseDelay: 3 * time.Second, Multiplier: 1, Jitter: 1, MaxDelay: 2 * time.Second}, // base above max, full jitter
+}
+
+//verif:thoroughonly verifH_C20_range
+func verifH_C20_range() {
+	c := verifC20Cfgs[verifChoice("configuration", len(verifC20Cfgs))]
+	n := 1 + verifChoice("retries", 6)
+	d := Exponential{Config: c}.Backoff(n)
+	exp := float64(c.BaseDelay)
+	for i := 0; i < n && exp < float64(c.MaxDelay); i++ {
+		exp *= c.Multiplier
+	}
+	if exp > float64(c.MaxDelay) {
+		exp = float64(c.MaxDelay)
+	}
+	lo, hi := int64(exp*(1-c.Jitter)), int64(exp*(1+c.Jitter))
+	verifAssert(int64(d) >= lo-1 && int64(d) <= hi+1, "the delay lies within [(1-jitter), (1+jitter)] x min(base x multiplier^n, max), to the nanosecond")
+	verifAssert(d >= 0, "never negative")
+	if exp == float64(c.MaxDelay) {
+		verifCover("capped")
+	}
+	verifCover("range")
 }
